@@ -23,20 +23,46 @@ LE_SIG_CID = l2cap.L2CAP_LE_SIGNALING_CID
 # ---------------------------------------------------------------------------
 # collaborators (recording stubs)
 # ---------------------------------------------------------------------------
-def mgr_send_pdu(ghost, connection, cid, pdu):
-    """a K-frame leaves on the data channel: the *spec receiver* (spec/coc.py) consumes it"""
-    assert ghost.c >= 1  # the sender holds a credit
-    ghost.c = ghost.c - 1
-    assert 1 <= len(pdu) and len(pdu) <= ghost.mps  # non-empty, never larger than the peer's MPS
-    assert cid == ghost.dcid  # on the peer's channel endpoint
-    ghost.k = ghost.k + 1
+def frame_fits(ghost, pdu):
+    """non-empty, never larger than the peer's MPS"""
+    return 1 <= len(pdu) and len(pdu) <= ghost.mps
+
+
+def frame_within_sdu(ghost, pdu):
+    """a frame never straddles two SDUs"""
+    return not rs_overflow(ghost.rbuf + pdu)
+
+
+def sdu_within_mtu(ghost, pdu):
+    """no SDU larger than the peer's MTU (and none empty)"""
     b = ghost.rbuf + pdu
-    assert not rs_overflow(b)  # a frame never straddles two SDUs
-    assert implies(len(b) >= 2, 1 <= le16(b) and le16(b) <= ghost.mtu)  # no SDU larger than the peer's MTU
+    return implies(len(b) >= 2, 1 <= le16(b) and le16(b) <= ghost.mtu)
+
+
+def frame_ok(ghost, pdu):
+    """what the sender guarantees for every frame it emits, relative to the SDU in progress at the receiver"""
+    return frame_fits(ghost, pdu) and frame_within_sdu(ghost, pdu) and sdu_within_mtu(ghost, pdu)
+
+
+def spec_rx_step(ghost, pdu):
+    """the *spec receiver* (spec/coc.py) consumes one K-frame"""
+    b = ghost.rbuf + pdu
     done = rs_complete(b)
     ghost.rout = ghost.rout + ite(done, payload_part(b), b'')
     ghost.rn = ghost.rn + ite(done, 1, 0)
     ghost.rbuf = ite(done, b'', b)
+
+
+def mgr_send_pdu(ghost, connection, cid, pdu):
+    """a K-frame leaves on the data channel"""
+    assert ghost.c >= 1  # the sender holds a credit
+    ghost.c = ghost.c - 1
+    assert cid == ghost.dcid  # on the peer's channel endpoint
+    ghost.k = ghost.k + 1
+    assert frame_fits(ghost, pdu)
+    assert frame_within_sdu(ghost, pdu)
+    assert sdu_within_mtu(ghost, pdu)
+    spec_rx_step(ghost, pdu)
 
 
 def mgr_send_control_frame(ghost, connection, cid, frame):
@@ -757,3 +783,59 @@ for _n in (1, 2):
                 'L2CAP_Control_Frame.*', 'L2CAP_Credit_Based_Connection_Response.*', 'L2CAP_LE_Flow_Control_Credit.*'],
         note=f'bounded: {_n} channel(s) in the request (the specification allows up to 5), at most one other channel on the connection',
     )
+
+
+# ---------------------------------------------------------------------------
+# lemma coc_stream: the frames the sender emits, fed to the real receiver (through its contract), in order
+# ---------------------------------------------------------------------------
+STREAM_GHOST = dict(mps=Int, mtu=Int, rbuf=Bytes, rout=Bytes, rn=Int, **RX_GHOST)
+
+
+def lemma_coc_stream(rx, frames, ghost):
+    """`frames` is any sequence of K-frames; as long as each one satisfies what the sender contract guarantees
+    per frame (frame_ok, asserted by the send stub of process_output against the spec receiver), the real
+    receiver stays in step with the spec receiver and hands the application exactly the same octets"""
+    i = 0
+    while i < len(frames):
+        f = frames[i]
+        if not frame_ok(ghost, f):
+            return
+        spec_rx_step(ghost, f)
+        rx.on_pdu(f)
+        i = i + 1
+
+
+def in_step(rx, ghost):
+    return [
+        rx_buf(rx) == ghost.rbuf,  # same SDU in progress
+        ghost.sunk == ghost.rout,  # the application got exactly the payload octets of the completed SDUs, in order
+        ghost.nsdu == ghost.rn,  # in as many sink calls as SDUs
+        wf_rx(rx),
+        wf_ledger(rx),  # and the peer holds a credit after every frame
+    ]
+
+
+lemma(
+    'coc_stream',
+    lemma_coc_stream,
+    prop='C07',
+    params=dict(rx=Inst('bumble.l2cap:LeCreditBasedChannel', sink=Callback('sink', effect=rx_sink), out_sdu=Any, connection_result=Any), frames=ListOf(Bytes)),
+    ghost=STREAM_GHOST,
+    requires=lambda rx, frames, ghost: in_step(rx, ghost) + [rx.peer_max_credits <= 65535],
+    ensures=lambda rx, frames, old, ghost: in_step(rx, ghost),
+    ensures_names=['same-sdu-in-progress', 'delivered-exactly-the-sent-payloads', 'one-sink-call-per-sdu', 'wf-short', 'wf-known', 'peer-holds-a-credit'],
+    invariants={
+        0: lambda rx, frames, i, old, ghost: in_step(rx, ghost)
+        + [
+            0 <= i,
+            i <= len(frames),
+            # credit conservation over the whole sequence: one credit per frame received, plus what was returned
+            rx.peer_credits == old.rx.peer_credits - i + (ghost.cr_total - old.ghost.cr_total),
+        ]
+    },
+    decreases={0: lambda frames, i: len(frames) - i},
+    loop_locals={0: dict(f=Bytes)},
+    modifies=['rx.in_sdu', 'rx.in_sdu_length', 'rx.peer_credits', 'ghost.sunk', 'ghost.nsdu', 'ghost.last', 'ghost.cr_frames', 'ghost.cr_total', 'ghost.cr_cid',
+              'ghost.cr_last', 'ghost.rbuf', 'ghost.rout', 'ghost.rn'],
+    uses=['bumble.l2cap:LeCreditBasedChannel.on_pdu'],
+)
